@@ -12,9 +12,9 @@ Record index_dump := {
   id_header : index_header;
   id_store : res (layout * list (option (option N * list (list N * res value)))) }.  (* None = no such entry *)
 
-Definition dp_dump (f : list N) : res (list (res index_dump)) :=
+Definition dp_dump_at (f : list N) (base : N) : res (list (res index_dump)) :=
   let n := lenN f in
-  match run_n n f (dp_open_p 0) with
+  match run_n n f (dp_open_p base) with
   | Err e => Err e
   | Ok d =>
       if 300 <? dh_value_count (dp_dh d) then Err EFormat else
@@ -39,4 +39,5 @@ Definition dp_dump (f : list N) : res (list (res index_dump)) :=
                     end |}
         end) (nseq 0 (N.to_nat (dh_index_count (dp_dh d)))))
   end.
+Definition dp_dump (f : list N) := dp_dump_at f 0.
 Close Scope N_scope.
